@@ -18,7 +18,9 @@ RULE = ("random command trees (vp/gen_cmd.py, profile defaults=0.7 env=0.6, no h
         "default-missing values (num 0..=1, with and without require_equals), an environment variable (set / unset, also "
         "on flags and counters), globals; argv rendered from invocations where each argument is independently present or "
         "absent, spelled `--o`, `--o=`, `--o=v`, `--o v`, `-o`, `-o=v`; a second stream mutates tokens; a third runs every "
-        "command twice (with / without its default declarations).  A case is non-trivial when the result is Ok and some "
+        "command twice (with / without its default declarations); a fourth uses the shared generator with every parser "
+        "feature on (hyphen values, trailing var args, flag subcommands, inference, external subcommands, boundary and "
+        "non-UTF-8 tokens).  A case is non-trivial when the result is Ok and some "
         "argument of a reached level has at least two of {command-line occurrence, set environment variable, declared "
         "default} or a default-missing occurrence; distinct = distinct case text.")
 TRUSTED = [
@@ -224,6 +226,23 @@ def gen_cases(rng, n, mode, p_mutate, per_cmd=4):
                 out.append(gen_cmd.case_sx(c, argv, mode="c06"))
             else:
                 out.append(gen_cmd.case_sx(c, argv, mode="c06pair"))
+    return out[:n]
+
+
+def gen_generic(rng, n):
+    """the shared parser generator with every feature on (hyphen values, trailing var args, flag subcommands,
+    inference, external subcommands, boundary / non-UTF-8 tokens), decorated with the C06 features"""
+    prof = gen_cmd.Profile(defaults=0.6, env=0.5)
+    out = []
+    while len(out) < n:
+        c = gen_cmd.gen_cmd(rng, prof)
+        keep = {id(a): set(a["flags"]) & {"hyphen", "negnum"} for cc in all_cmds(c) for a in cc["args"]}
+        decorate(rng, c)
+        for cc in all_cmds(c):
+            for a in cc["args"]:
+                a["flags"] |= keep.get(id(a), set())
+        for _ in range(4):
+            out.append(gen_cmd.case_sx(c, gen_cmd.gen_argv(rng, c, p_mutate=0.4, safe_p=0.5), mode="c06"))
     return out[:n]
 
 
@@ -737,6 +756,8 @@ def make_nontrivial(stats_out):
 def streams(tier, rng):
     quick = tier == "quick"
     n_main, n_mut, n_pair = (8000, 4000, 4000) if quick else (160000, 60000, 60000)
+    n_gen = 3000 if quick else 50000
+    d4 = {"measured": "on the implementation's results of this run (filled in while the stream is evaluated)"}
     d1, d2, d3 = ({"measured": "on the implementation's results of this run (filled in while the stream is evaluated)"} for _ in range(3))
     return [
         Stream("sources", directed_cases() + gen_cases(rng, n_main, "c06", 0.0), oracle=oracle, area="sources",
@@ -745,6 +766,8 @@ def streams(tier, rng):
                project=project, nontrivial=make_nontrivial(d2), describe=d2),
         Stream("with_without_defaults", gen_cases(rng, n_pair, "c06pair", 0.15), oracle=pair_oracle, area="sources",
                project=project, nontrivial=make_nontrivial(d3), describe=d3),
+        Stream("sources_all_features", gen_generic(rng, n_gen), oracle=oracle, area="sources",
+               project=project, nontrivial=make_nontrivial(d4), describe=d4),
     ]
 
 
